@@ -97,6 +97,6 @@ def main(tier, replay=None):
         "in both call orders with simplify on/off and kept variables, or merged; clause groups keeps (every operand "
         "guarantee over the result's interface is implied by the result) and exact (no connection => exact conjunction); "
         "non-trivial = the operation returned and at least one operand guarantee lies over the result's interface",
-        replay=replay, sig_extra=sig_extra,
+        replay=replay, design=("Alg_keeps_quick.cfg", "Alg_keeps.cfg"), sig_extra=sig_extra,
         nontrivial=lambda ev: ev["exc"] == "none" and bool(ev["_clauses"].get("keeps")),
     )
